@@ -70,8 +70,20 @@ def strLe (a b : Str) : Bool := decide (a ≤ b)
 /-- Python `a < b` on strings. -/
 def strLt (a b : Str) : Bool := decide (a < b)
 
-/-- `sorted(xs)` for a list of strings (stable merge sort; Python's sort is stable too). -/
-def sortStrs (xs : List Str) : List Str := xs.mergeSort (fun a b => strLe a b)
+/-- insert `x` before the first element it is `≤` to -/
+def insertBy {α} (le : α → α → Bool) (x : α) : List α → List α
+  | [] => [x]
+  | y :: ys => if le x y then x :: y :: ys else y :: insertBy le x ys
+
+/-- Stable insertion sort.  Python's `sorted` / `list.sort` is a stable sort, and the output of
+a stable sort is determined by the input and the (total) preorder, so this is the same
+function as Timsort; it is defined by structural recursion so that the kernel can evaluate it. -/
+def isort {α} (le : α → α → Bool) : List α → List α
+  | [] => []
+  | x :: xs => insertBy le x (isort le xs)
+
+/-- `sorted(xs)` for a list of strings -/
+def sortStrs (xs : List Str) : List Str := isort (fun a b => strLe a b) xs
 
 /-- Python `(a1, a2) <= (b1, b2)` on pairs of strings. -/
 def pairLe (a b : Str × Str) : Bool := strLt a.1 b.1 || (a.1 == b.1 && strLe a.2 b.2)
